@@ -205,6 +205,18 @@ def run_case(case, ctx):
         cfg = model.config
         if not check_config(ctx, cfg, ref, poi):
             return
+        # the same measurement selected by index, and a POI override by name
+        ok, mi_model = ctx.call("C12/Workspace.model_by_index", ws.model, measurement_index=mi)
+        if ok and _cfg_summary(mi_model.config) != _cfg_summary(cfg):
+            ctx.fail("C12/model_by_index_differs_from_model_by_name", measurement=meas["name"], index=mi)
+        other = [n for n in sorted(ref.params) if ref.params[n].n == 1 and n != poi]
+        if other:
+            ok, mo = ctx.call("C12/Workspace.model_poi_override", ws.model, measurement_name=meas["name"], poi_name=other[0])
+            if ok and (mo.config.poi_name != other[0] or mo.config.poi_index != mo.config.par_slice(other[0]).start):
+                ctx.fail("C12/poi_name_override_not_honoured", want=other[0], got=mo.config.poi_name)
+        ok, mn = ctx.call("C12/Workspace.model_poiless", ws.model, measurement_name=meas["name"], poi_name=None)
+        if ok and (mn.config.poi_name is not None or mn.config.poi_index is not None):
+            ctx.fail("C12/poi_name_None_not_honoured", got=mn.config.poi_name)
         # direct Model construction from the same spec gives the same configuration
         spec_before = copy.deepcopy(spec)
         ok, m2 = ctx.call("C12/Model", pyhf.Model, spec, poi_name=poi or None)
